@@ -657,8 +657,14 @@ fn logit_event(run: i64, c: &LogitCase, o: Option<Result<Result<LogitOut, String
     let (mut pred2, mut pred_ok): (Vec<i64>, bool) = (vec![], false);
     match o {
         None => status = "timeout",
-        Some(Err(_)) => status = "panic",
-        Some(Ok(Err(_))) => status = "err",
+        Some(Err(m)) => {
+            status = "panic";
+            e["msg"] = json!(m);
+        }
+        Some(Ok(Err(m))) => {
+            status = "err";
+            e["msg"] = json!(m);
+        }
         Some(Ok(Ok(out))) => {
             status = "ok";
             if std::env::var("C09_DEBUG").is_ok() {
